@@ -2,7 +2,7 @@ INIT Init
 NEXT Next
 CONSTANTS
   Ns = {1, 2, 3}
-  Variants = {1, 2, 3, 4, 5, 6, 7, 8, 9}
+  Variants = {1, 2, 3, 4, 5, 6, 7, 8, 9, 10, 11, 12, 13}
   Mixed = {FALSE, TRUE}
   KindPats = {"struct", "enum", "alt"}
   Compacts = {FALSE, TRUE}
